@@ -121,6 +121,27 @@ def _log(path, kind, ident):
         os.close(fd)
 
 
+def _epoch(path):
+    """Time stamp of the first line of the task log: the start of the earliest task."""
+    try:
+        with open(path, 'rb') as f:
+            return int(f.readline().split()[-1])
+    except Exception:
+        return time.monotonic_ns()
+
+
+def _sleep_planned(path, delay_ms, from_epoch):
+    """Sleep the planned delay: from the task's own start, or (forced orders) until the common epoch -- the start
+    of the earliest task, read from the log -- plus the delay, so that start skew between workers does not blur
+    the intended completion order."""
+    if from_epoch and path is not None:
+        wait = (_epoch(path) + delay_ms * 1_000_000 - time.monotonic_ns()) / 1e9
+    else:
+        wait = delay_ms / 1000.0
+    if wait > 0:
+        time.sleep(min(wait, 0.25))
+
+
 def _thread_id():
     import threading
     return threading.get_ident()
@@ -182,8 +203,9 @@ def _compute(mode, d, v):
 class Task:
     """Picklable task: identifies its input, logs, sleeps its planned delay, fails on plan."""
 
-    def __init__(self, log, plan, mode, items, live):
+    def __init__(self, log, plan, mode, items, live, from_epoch=False):
         self.log, self.plan, self.mode, self.items, self.live = log, plan, mode, items, live
+        self.from_epoch = from_epoch
 
     def __call__(self, *args):
         if len(args) == 2:
@@ -202,7 +224,7 @@ class Task:
         if self.live:
             _log(self.log, 'S', ident)
             if delay_ms:
-                time.sleep(delay_ms / 1000.0)
+                _sleep_planned(self.log, delay_ms, self.from_epoch)
             _log(self.log, 'D', ident)
         if fail:
             raise TaskFailure(ident)
@@ -212,28 +234,29 @@ class Task:
 class SlowCell:
     """Object cell whose pickling ('reduce') or unpickling ('rebuild') sleeps when it happens
     in a process other than the one that created it, i.e. inside a store worker."""
-    __slots__ = ('origin', 'ident', 'delay_ms', 'phase', 'log')
+    __slots__ = ('origin', 'ident', 'delay_ms', 'phase', 'log', 'from_epoch')
 
-    def __init__(self, origin, ident, delay_ms, phase, log):
+    def __init__(self, origin, ident, delay_ms, phase, log, from_epoch=False):
         self.origin, self.ident, self.delay_ms, self.phase, self.log = origin, ident, delay_ms, phase, log
+        self.from_epoch = from_epoch
 
     def __reduce__(self):
         if self.phase == 'reduce' and os.getpid() != self.origin:
             _log(self.log, 'S', self.ident)
-            time.sleep(self.delay_ms / 1000.0)
+            _sleep_planned(self.log, self.delay_ms, self.from_epoch)
             _log(self.log, 'D', self.ident)
-        return (_rebuild_cell, (self.origin, self.ident, self.delay_ms, self.phase, self.log))
+        return (_rebuild_cell, (self.origin, self.ident, self.delay_ms, self.phase, self.log, self.from_epoch))
 
     def __repr__(self):
         return f'SlowCell({self.ident})'
 
 
-def _rebuild_cell(origin, ident, delay_ms, phase, log):
+def _rebuild_cell(origin, ident, delay_ms, phase, log, from_epoch=False):
     if phase == 'rebuild' and os.getpid() != origin:
         _log(log, 'S', ident)
-        time.sleep(delay_ms / 1000.0)
+        _sleep_planned(log, delay_ms, from_epoch)
         _log(log, 'D', ident)
-    return SlowCell(origin, ident, delay_ms, phase, log)
+    return SlowCell(origin, ident, delay_ms, phase, log, from_epoch)
 
 
 # --------------------------------------------------------------------------------------
